@@ -87,7 +87,7 @@ def run(tier, seed):
     _, _, mm2 = validate(st, "selftest")
     chk.cov["selftest"] = {"corrupted_events": n, "rejected": len(mm2), "ok": len(mm2) == n and n == 3}
     if not chk.cov["selftest"]["ok"]:
-        raise ToolError("self-test: corrupted tables were not rejected")
+        chk.selftest_failed("corrupted tables were not rejected")
     e0 = json.loads(open(first).readline())
     chk.sample({k: e0[k] for k in e0 if k != "keys"})
     chk.cov["traces_validated_against_impl"] = sweeps
